@@ -765,6 +765,9 @@ def execute(spec, fault, bump):
         return out
     if state["bad_objective"] is not None:
         violate("objective_not_the_documented_sum", kind, state["bad_objective"])
+    if kind in ("calibrate", "optimize") and len(hist) > spec["maxiters"] + 1:
+        # bounded progress: whatever the clock does (jumps back, stalls), the iteration budget ends the procedure
+        violate("iteration_budget_exceeded", kind, {"maxiters": spec["maxiters"], "objective_evaluations": len(hist), "clock_faults": clock.fired})
     if hist:
         f0 = hist[0][1]
         finite = [h[1] for h in hist if not math.isnan(h[1])]
